@@ -662,8 +662,12 @@ func (x *e2) runConcurrent() {
 	np := x.ch.Pick("cfg", 5)
 	for i := 0; i < np; i++ {
 		ev := x.genEvent("feed", true)
-		for ev.Op != "packet" {
+		// (bounded: a replayed tape that has run out only yields defaults)
+		for try := 0; ev.Op != "packet" && try < 64; try++ {
 			ev = x.genEvent("feed", true)
+		}
+		if ev.Op != "packet" {
+			ev = smEvent{Op: "packet", Pkt: smPacket{Kind: kMessage}}
 		}
 		pkts = append(pkts, ev.Pkt)
 	}
@@ -688,8 +692,11 @@ func (x *e2) runConcurrent() {
 		var evs []smEvent
 		for i := 0; i < nops; i++ {
 			ev := x.genEvent(st, true)
-			for ev.Op == "packet" {
+			for try := 0; ev.Op == "packet" && try < 64; try++ {
 				ev = x.genEvent(st, true)
+			}
+			if ev.Op == "packet" {
+				ev = smEvent{Op: "send", N: 1}
 			}
 			evs = append(evs, ev)
 		}
